@@ -1,6 +1,6 @@
 (* C15 -- bench reader and writer are faithful (line-AST level).  Statements only; proofs in Proofs/BenchProofs.v. *)
 From stdpp Require Import strings gmap sets.
-From CG Require Import Model.Bench Model.BenchSpec Model.Lint Proofs.BenchProofs Proofs.BenchRoundProofs Proofs.BenchReadProofs Proofs.BenchFinal Model.BenchScan Proofs.RegexProofs Proofs.RegexSound Proofs.RegexCanon Proofs.BenchTextFinal.
+From CG Require Import Model.Bench Model.BenchSpec Model.Lint Proofs.BenchProofs Proofs.BenchRoundProofs Proofs.BenchReadProofs Proofs.BenchFinal Model.BenchScan Proofs.RegexProofs Proofs.RegexSound Proofs.RegexCanon Model.BenchLayout Proofs.RegexLayout Proofs.BenchTextFinal.
 Open Scope string_scope.
 
 (* ---- obligations on the regenerated tables of io.py ---- *)
@@ -173,6 +173,22 @@ Theorem C15_read_text_canonical : ∀ name ls, wfb ls = true →
 Proof. exact read_text_canonical. Qed.
 Print Assumptions C15_read_text_canonical.
 
+(* ---- character level over LAYOUTS (Model/BenchLayout.v): per statement the keyword case (INPUT/input, OUTPUT/output, DFF/dff),
+   arbitrary whitespace of the \s class at every position where the patterns have \s*, arbitrary blanks (blank, tab, newline)
+   around every operand; between statements arbitrary whitespace (also none: several statements per line, blank lines, CR LF)
+   and comments with any content (# ... newline), also before the first statement; the line list itself is in any order ---- *)
+Theorem C15_scan_layout : ∀ g0 ls, wfb (lines_of ls) = true → layouts_ok g0 ls →
+  scan_codes (render_layout g0 ls) = by_pass (lines_of ls).
+Proof. exact scan_layout. Qed.
+Print Assumptions C15_scan_layout.
+
+(* END TO END over layouts: comment removal + regex scans + post-processing + the four API passes on ANY laid-out text of a
+   well-formed line list give the closed-form circuit, i.e. (C15_bench_read_denotes) the circuit the text denotes *)
+Theorem C15_read_text_layout : ∀ name text g0 ls, codes text = render_layout g0 ls → wfb (lines_of ls) = true → layouts_ok g0 ls →
+  bench_read_text name text = Ok (bench_closed name (lines_of ls)).
+Proof. exact read_text_layout. Qed.
+Print Assumptions C15_read_text_layout.
+
 (* ---- non-vacuity: a well-formed text with a repeated operand, a constant-producing line and two chained flops ---- *)
 Definition ex_lines := [BOutput "y"; BDff "q1" "q2"; BGate "y" "XOR" ["a"; "a"; "q1"]; BGate "k" "xnor" ["a"; "a"];
                         BDff "q2" "k"; BInput "a"; BGate "z" "BUFF" ["y"]; BOutput "a"].
@@ -193,4 +209,12 @@ Example C15_ex_round : lint_cleanb ex_circ && match bench_write ex_circ ex_ord w
   | Ok ls => bool_decide (bench_read "t" ls = Ok (bench_closed "t" ls) ∧ bench_closed "t" ls = ex_circ) | _ => false end = true.
 Proof. vm_compute. reflexivity. Qed.
 Example C15_ex_scan : bool_decide (scan_codes (render ex_lines) = by_pass ex_lines) = true.
+Proof. vm_compute. reflexivity. Qed.
+
+(* a layout of ex_lines: lower-case keywords, blanks/tabs/newlines at every position, a trailing comment that contains
+   statements after every statement, CR LF line ends, a comment before the first statement *)
+Definition ex_lay : lay := {| l_lc := true; l_w1 := [32; 9]; l_w2 := [10]; l_w3 := [32]; l_ob := λ _, [32]; l_oa := λ _, [9; 10] |}.
+Definition ex_layout : list lunit :=
+  (λ l, (l, ex_lay, [SWs [32]; SComment (codes " y = OR(a,b) INPUT(zz) # x"); SWs [13; 10]])) <$> ex_lines.
+Example C15_ex_layout_scan : bool_decide (scan_codes (render_layout [SComment (codes " c17 OUTPUT(q)")] ex_layout) = by_pass ex_lines) = true.
 Proof. vm_compute. reflexivity. Qed.
